@@ -329,6 +329,35 @@ func c06Run(c *Ctx) {
 			c06Judge(c, &Case{Gen: "fault-free-controls-cli", Mode: "cli", Src: src, Stdin: stdin})
 		}
 	}
+	// wider fault-free programs, alone and followed by one real fault on a known line: several elements appended
+	// at once, assignments used as values whose target lives in an enclosing scope, value-less returns, nil reads
+	{
+		bodies := []string{
+			Lines(Var("row", "[]"), "row = "+BI("append", "row", "1", "2")+";", "row = "+BI("append", "row", "3", "4", "5")+";", Print(BI("len", "row")), Print(BI("append", "[0]", "row", "[9]", "nil"))),
+			Lines(K["var"]+" ev = 0, od = 0;", For(Var("rd", "1"), "rd <= 2", "rd = rd + 1", "{ ev = od = 0; "+For(Var("i", "1"), "i <= 4", "i = i + 1", "{ "+IfElse("i % 2 == 0", "{ ev = ev + i * rd; }", "{ od = od + i * rd; }")+" }")+" "+Print("ev - od")+" }")),
+			Lines(Var("cnt", "0"), Fun("nxt", "", " "+Ret("cnt = cnt + 1")+" "), Print("nxt() * 10"), Print("nxt() * 10"), Fun("twice", "", " "+Var("loc", "0")+" { { loc = cnt = cnt + 5; } } "+Ret("loc + cnt")+" "), Print("twice()")),
+			Lines(Var("o", "{a: nil}"), Print("o.a"), "o.b = o.a;", Print("o.b == nil"), Fun("nothing", "", " "+Ret("")+" "), "o.c = nothing();", Print("o.c"), Print("[nil][0]"), Var("un", "nil"), "un = nothing();", Print("un")),
+			Lines(Var("m", "7"), Print("m % 0.5"), Print("1 % 0.1"), Print("m / 0.0000000001"), Print("(10 ** 309) % 5"), Print("5 ^ (0 - 1)"), Print("m ^ ~0"), Print("m % (10 ** 309)")),
+		}
+		for _, b := range bodies {
+			nl := strings.Count(b, "\n")
+			for _, tail := range []string{"", Print(`"pre-fault"`) + "\n" + Print("ghost") + "\n" + Print(`"AFTER-1"`) + "\n"} {
+				src := Print(`"start"`) + "\n" + b + tail
+				x := map[string]string{}
+				gen := "fault-free-controls"
+				if tail != "" {
+					gen = "late-faults"
+					x = map[string]string{"line": fmt.Sprint(nl + 3)}
+				}
+				if c.Mine() {
+					c06Judge(c, &Case{Gen: gen, Src: src, Stdin: stdin, X: x})
+				}
+				if c.Mine() {
+					c06Judge(c, &Case{Gen: gen + "-cli", Mode: "cli", Src: src, Stdin: stdin, X: x})
+				}
+			}
+		}
+	}
 	// programs that perform no operation at all are fault-free too
 	for _, src := range []string{"", "\n", "// only a comment\n", "/* block\n comment */\n", "   \n\t\n", "// a\n// b", "/**/"} {
 		if c.Mine() {
@@ -394,7 +423,7 @@ func init() {
 		Run:         c06Run,
 		Judge:       c06Judge,
 		MustCount: func(c *Ctx) []string {
-			out := []string{"gen:planted-faults", "gen:planted-faults-cli", "gen:fault-free-controls", "fault_free_programs", "cli_runs", "hook_transparency_checked", "string_valued_faults_consistent"}
+			out := []string{"gen:planted-faults", "gen:planted-faults-cli", "gen:fault-free-controls", "gen:late-faults", "fault_free_programs", "cli_runs", "hook_transparency_checked", "string_valued_faults_consistent"}
 			for _, p := range c06Positions() {
 				out = append(out, "pos:"+p.name)
 			}
